@@ -58,7 +58,7 @@ class C04(ProgramProperty):
     id = "C04"
     theorems = ["C04_record", "C04_iff", "C04_which", "C04_listing", "C04_owner", "C04_bimap", "C04_loader_prefix_map",
                 "C04_loader_priority", "C04_advertised_prefixes", "C04_advertised_canonical", "C04_advertised_uri",
-                "C04_advertised_uri_prefixes"]
+                "C04_advertised_uri_prefixes", "C04_advertised_prefix_map", "C04_advertised_reverse_map"]
     lean_modules = ["CuriesVerif.Properties.C04", "CuriesVerif.Properties.Advertised"]
     rule = ("one case = one record collection, valid (60%, up to 12 records: no false rejections) or with one or two "
             "planted clashes (canonical-canonical, canonical-synonym, synonym-synonym on the CURIE side, the URI side "
